@@ -548,9 +548,7 @@ func splitSet(s string) []string {
 func c02R6(c *Ctx) {
 	r := c.R.Rule("R6", "K2/K6/K3 position writers: Instance.State has a closed writer set; Source.Ack stores the last element of its argument; the v2 worker refuses empty positions before every Source.Ack and the fan-out tally refuses empty and duplicate positions", 9)
 	stateF := c.Field(r, pConn, "Instance", "State")
-	c.WhoMayWrite(r, "connector.Instance.State", stateF, []string{
-		pConn + ".(*Source).Ack", pConn + ".(*Service).SetState", pConn + ".(*Store).decode", pConn + ".(*Store).migratePre041", pConn + ".(*Store).PrepareSet",
-	}, nil)
+	stateWriterTable(c, r, stateF)
 	if ack := c.SSA(r, pConn, "(*Source).Ack"); ack != nil {
 		posF := c.Field(r, pConn, "SourceState", "Position")
 		okAny := false
